@@ -14,7 +14,7 @@ import RrModel.Go.Res
       has never been revalidated; `time.Parse` failing twice leaves the zero `Time`, whose
       Unix value (year 1) is `<= now`, i.e. an unparsable date means "expired";
     * the client validators are only compared when no revalidation is due; If-None-Match
-      shadows If-Modified-Since; `normalizeEtag` is a cutset trim; with ETAG_SUFFIX set the
+      shadows If-Modified-Since; `normalizeEtag` removes one `W/` prefix; with ETAG_SUFFIX set the
       client's tag must end in the suffix (or suffix + `"`), and the cut `clientEtag[:idx]`
       uses `strings.LastIndex` on the NORMALISED tag (a run-time panic when that is -1).
 -/
